@@ -712,7 +712,13 @@ impl SvgElement {
                     // circle/ellipses are is present and ref_list.len() > 1.
                     // Should probably fold the list and provide next element type
                     // as the target shape here
-                    el.inscribed_bbox(&self.name)
+                    // (what is clipped away of the reference is not inside it)
+                    match (el.inscribed_bbox(&self.name)?, ctx.get_element_bbox(el)?) {
+                        (Some(inscribed), Some(visible)) => {
+                            Ok(BoundingBox::intersection([inscribed, visible]))
+                        }
+                        (inscribed, _) => Ok(inscribed),
+                    }
                 };
                 if let Ok(Some(el_bb)) = bb {
                     bbox_list.push(el_bb);
